@@ -200,13 +200,15 @@ type hostState struct {
 	mine   []*container
 }
 
-// invoke runs one plugin process to completion on its own goroutine (a fresh sched actor: a crash kills only it).
+// invoke runs one plugin process to completion.  The process is a fresh sched actor (a crash kills only it); it
+// executes on the host runtime's goroutine, which has nothing else to do meanwhile, and every datastore call it
+// makes is attributed to the process's actor by the client it was handed (see procClient).
 func (h *hostState) invoke(kind invKind, c *container) result {
 	w := h.w
 	w.nInv++
 	c.invoked++
 	inv := &invocation{id: w.nInv, kind: kind, c: c}
-	inv.sa = w.s.NewActor(fmt.Sprintf("%s.p%03d", h.name, inv.id))
+	inv.sa = &sched.Actor{Name: fmt.Sprintf("%s.p%03d", h.name, inv.id)}
 	inv.client = w.clientFor(inv)
 	inv.desc = fmt.Sprintf("%s %s c%d primary=%s workload=%s", inv.sa.Name, kind, c.idx, c.primary(), c.workloadID())
 	w.invByActor[inv.sa.Name] = inv
@@ -218,9 +220,7 @@ func (h *hostState) invoke(kind invKind, c *container) result {
 		c.held = nil
 	}
 	var res result
-	done := make(chan struct{})
-	w.s.Go(inv.sa, func(ctx context.Context) {
-		defer close(done)
+	func() {
 		defer func() {
 			if p := recover(); p != nil {
 				w.violation("sut_panic", "%s panicked: %v\n%s", inv.desc, p, trim(string(debug.Stack()), 5000))
@@ -238,7 +238,7 @@ func (h *hostState) invoke(kind invKind, c *container) result {
 			if !c.fam4 {
 				args.Num4, args.Num6 = 0, 1
 			}
-			v4, v6, err := inv.client.IPAM().AutoAssign(ctx, args)
+			v4, v6, err := inv.client.IPAM().AutoAssign(context.Background(), args)
 			res.err = err
 			n := 0
 			if v4 != nil {
@@ -252,8 +252,7 @@ func (h *hostState) invoke(kind invKind, c *container) result {
 			}
 		}
 		res.raw = w.takeStdout()
-	})
-	<-done
+	}()
 	h.cur = nil
 	res.crashed = inv.sa.Crashed
 	if res.crashed {
